@@ -29,6 +29,7 @@ class Pair:
         self.t = TrackedDfg(*[INT_T] * width)
         self.p = Dfg(*[INT_T] * width)
         self.nodes_t = [self.t.input_node]
+        self.coms = {}
         self.nodes_p = [self.p.input_node]
         self.width = width
 
@@ -61,7 +62,15 @@ class Pair:
             if a == "Add":
                 op = op_of(ev["op"])
                 meta = META[ev["m"]]
-                n = self.t.add(op(*[self.arg_t(x) for x in ev["args"]]), metadata=dict(meta) if meta else None)
+                # a Command is a value: the same Command object may be added again later (a reused gate / layer). Commands whose
+                # arguments are all integers are built once per (op, arguments) and the object is reused.
+                args_t = [self.arg_t(x) for x in ev["args"]]
+                if all(isinstance(x, int) for x in args_t):
+                    key = (ev["op"], tuple(args_t))
+                    com = self.coms.setdefault(key, op(*args_t))
+                else:
+                    com = op(*args_t)
+                n = self.t.add(com, metadata=dict(meta) if meta else None)
                 self.nodes_t.append(n)
                 if explicit_ins is not None:
                     m = self.p.add_op(op_of(ev["op"]), *[self.wire("p", w) for w in explicit_ins], metadata=dict(meta) if meta else None)
@@ -76,6 +85,10 @@ class Pair:
                 self.t.set_tracked_outputs()
                 if explicit_ins is not None:
                     self.p.set_outputs(*[self.wire("p", w) for w in explicit_ins])
+                try:                      # the outputs are set now (possibly to the empty row): the circuit is complete and serializes
+                    self.t.hugr.to_json()
+                except Exception as e:  # noqa: BLE001
+                    return {"k": f"outputs not set: to_json raised {type(e).__name__}"}
                 return {"k": "ok"}
         except IndexError:
             return {"k": "IndexError"}
